@@ -214,6 +214,11 @@ class Ref:
                     "kind": "bit"}
         es = self.esize(a["type"])
         n = cnt if cnt is not None else 1
+        if isinstance(value, (bytes, bytearray)):
+            # raw bytes are written as they are (documented for structures; accepted for every tag)
+            kind = "raw_bytes"
+            return {"key": a["key"], "range": (a["off"], a["off"] + n * es), "cons": [(a["off"], bytes(value), None)],
+                    "tag": base, "type": a["type"] if n == 1 else f"{a['type']}[{n}]", "kind": kind}
         vals = list(value[:n]) if (cnt is not None and n > 1) else [value]
         if cnt is not None and n == 1 and isinstance(value, list):
             vals = [value[0]]
